@@ -14,7 +14,7 @@ class CumulativeAggregations(Expr):
     aggregate_operation = None
 
     def _divisions(self):
-        return self.frame._divisions()
+        return self.frame.divisions
 
     @functools.cached_property
     def _meta(self):
@@ -117,7 +117,7 @@ class CumulativeFinalize(Expr):
     _parameters = ["frame", "previous_partitions", "aggregator"]
 
     def _divisions(self):
-        return self.frame._divisions()
+        return self.frame.divisions
 
     @functools.cached_property
     def _meta(self):
